@@ -5,9 +5,12 @@
 package simnet
 
 import (
+	"context"
 	"errors"
 	"fmt"
 	"io"
+	"os"
+	"syscall"
 )
 
 // Error menu.
@@ -16,8 +19,30 @@ var (
 	ErrCustom = errors.New("simnet: injected failure")
 )
 
+// timeoutError is what a net.Conn returns when a deadline passes: Timeout() and
+// Temporary() are both true, so code that retries "temporary" failures meets it.
+type timeoutError struct{}
+
+func (timeoutError) Error() string   { return "simnet: i/o timeout" }
+func (timeoutError) Timeout() bool   { return true }
+func (timeoutError) Temporary() bool { return true }
+
 func ErrorByName(n string) error {
 	switch n {
+	case "eagain":
+		return syscall.EAGAIN
+	case "eintr-wrapped":
+		return &os.PathError{Op: "write", Path: "|1", Err: syscall.EINTR}
+	case "timeout":
+		return timeoutError{}
+	case "deadline":
+		return fmt.Errorf("simnet: %w", os.ErrDeadlineExceeded)
+	case "short-write":
+		return io.ErrShortWrite
+	case "no-progress":
+		return io.ErrNoProgress
+	case "canceled":
+		return context.Canceled
 	case "unexpected-eof":
 		return io.ErrUnexpectedEOF
 	case "closed-pipe":
@@ -32,13 +57,17 @@ func ErrorByName(n string) error {
 	return ErrCustom
 }
 
-var ErrorNames = []string{"unexpected-eof", "closed-pipe", "reset", "custom", "wrapped-eof"}
+// TemporaryNames are error values a caller may be tempted to treat as retryable
+// (Temporary()/Timeout() true, EINTR, deadlines) or that the io package itself defines.
+var TemporaryNames = []string{"eagain", "eintr-wrapped", "timeout", "deadline", "short-write", "no-progress", "canceled"}
+
+var ErrorNames = append([]string{"unexpected-eof", "closed-pipe", "reset", "custom", "wrapped-eof"}, TemporaryNames...)
 
 // ReadErrorNames adds a clean io.EOF in the middle of a record: the stream simply ends.
-var ReadErrorNames = []string{"unexpected-eof", "closed-pipe", "reset", "custom", "wrapped-eof", "eof"}
+var ReadErrorNames = append([]string{"unexpected-eof", "closed-pipe", "reset", "custom", "wrapped-eof", "eof"}, TemporaryNames...)
 
 // WriteErrorNames adds io.EOF itself: for a writer it is just another error value.
-var WriteErrorNames = []string{"unexpected-eof", "closed-pipe", "reset", "custom", "wrapped-eof", "eof"}
+var WriteErrorNames = append([]string{"unexpected-eof", "closed-pipe", "reset", "custom", "wrapped-eof", "eof"}, TemporaryNames...)
 
 // Schedule says how many bytes each successive Read may return. Chunks[i] bounds the
 // i-th Read (0 = a (0,nil) stall); afterwards every Read is bounded by Repeat (0 = no
